@@ -17,7 +17,7 @@ PROP = {
         # same op-stream under libFuzzer (default byte decoder, seed corpus corpus/C02/timers on the even workers)
         {"target": "c02_timers_fuzz", "sub": "timers",
          "quick": {"runs": 25000, "max_len": 600, "workers": 3, "unit_timeout": 60},
-         "thorough": {"runs": 250000, "max_len": 1000, "workers": 4, "unit_timeout": 60}},
+         "thorough": {"runs": 400000, "max_len": 1000, "workers": 4, "unit_timeout": 60}},
     ],
     "assumptions": [
         "intervals are 1 ms .. 10^7 ms (the statement's d >= 1 ms; an interval of 0 is outside the domain)",
